@@ -5,7 +5,10 @@ import subprocess
 
 from .util import LEAN_DIR, InfraError
 
-DRIVER_EXE = os.path.join(LEAN_DIR, ".lake", "build", "bin", "driver")
+
+
+def driver_exe(prop_id):
+    return os.path.join(LEAN_DIR, ".lake", "build", "bin", "drv_" + prop_id.lower())
 
 
 class lake_lock:
@@ -29,18 +32,20 @@ def run_lake(args, timeout=3000):
     return p.returncode, p.stdout
 
 
-def driver_cmd(model):
-    if os.path.exists(DRIVER_EXE) and os.environ.get("VERIF_DRIVER", "exe") == "exe":
-        return [DRIVER_EXE, model]
-    return ["lake", "env", "lean", "--run", "Driver.lean", model]
+def driver_cmd(prop_id, args=()):
+    """The compiled model driver of a property (lean/Drivers/<ID>.lean -> .lake/build/bin/drv_<id>)."""
+    exe = driver_exe(prop_id)
+    if os.path.exists(exe) and os.environ.get("VERIF_DRIVER", "exe") == "exe":
+        return [exe] + list(args)
+    return ["lake", "env", "lean", "--run", "Drivers/%s.lean" % prop_id] + list(args)
 
 
 class LeanProc:
     """A long-lived model process.  ask() is synchronous; batch() pipes many lines at once."""
 
-    def __init__(self, model):
+    def __init__(self, model, args=()):
         self.model = model
-        self.p = subprocess.Popen(driver_cmd(model), cwd=LEAN_DIR, stdin=subprocess.PIPE, stdout=subprocess.PIPE,
+        self.p = subprocess.Popen(driver_cmd(model, args), cwd=LEAN_DIR, stdin=subprocess.PIPE, stdout=subprocess.PIPE,
                                   stderr=subprocess.PIPE, text=True, bufsize=1)
         self.lines = 0
 
@@ -66,10 +71,10 @@ class LeanProc:
             self.p.kill()
 
 
-def batch(model, lines, timeout=3000):
+def batch(model, lines, timeout=3000, args=()):
     """Run the driver once over all lines; returns the output lines (must be 1:1)."""
     inp = "".join(l + "\n" for l in lines)
-    p = subprocess.run(driver_cmd(model), cwd=LEAN_DIR, input=inp, stdout=subprocess.PIPE, stderr=subprocess.PIPE,
+    p = subprocess.run(driver_cmd(model, args), cwd=LEAN_DIR, input=inp, stdout=subprocess.PIPE, stderr=subprocess.PIPE,
                        text=True, timeout=timeout)
     out = p.stdout.split("\n")
     if out and out[-1] == "":
